@@ -5,6 +5,12 @@ package main
 
 import (
 	"fmt"
+	"sort"
+	"strings"
+
+	"github.com/ipfs/go-cid"
+	"github.com/multiformats/go-multibase"
+	mh "github.com/multiformats/go-multihash"
 
 	"github.com/anyproto/any-sync/commonspace/object/acl/aclrecordproto"
 	"github.com/anyproto/any-sync/consensus/consensusproto"
@@ -42,11 +48,13 @@ func (i rawInfo) Coq() string {
 		vlib.Bool(i.AccOk), i.Prev, i.Author, aclh.CsCoq(i.Cs))
 }
 
-// info computes the flags of a raw record with the real primitives (cidutil.VerifyCid, proto unmarshalling,
+// info computes the flags of a raw record with the real primitives (own canonical cid string, proto unmarshalling,
 // PubKey.Verify, recordverifier.New(network key).VerifyAcceptor) and decodes its contents.
 func (h *hist) info(rec *RawRec, st aclh.State) rawInfo {
 	in := rawInfo{Id: h.W.RidNum(rec.Id), Cs: []aclh.C{}}
-	in.CidOk = cidutil.VerifyCid(rec.Payload, rec.Id)
+	// the id is the hash of the bytes iff it is, AS A STRING, the canonical id (CIDv1, dag-cbor, sha2-256, base32 lower
+	// case) that the harness computes itself with go-cid / go-multihash -- not what cidutil.VerifyCid says
+	in.CidOk = canonicalCid(rec.Payload) == rec.Id
 	raw := &consensusproto.RawRecord{}
 	if err := raw.UnmarshalVT(rec.Payload); err != nil {
 		return in
@@ -71,6 +79,71 @@ func (h *hist) info(rec *RawRec, st aclh.State) rawInfo {
 	in.SigOk = err == nil && ok
 	in.Cs = aclh.Decode(h.W, data, st)
 	return in
+}
+
+// canonicalCid: the one id string a record with these bytes may carry.
+func canonicalCid(payload []byte) string {
+	sum, err := mh.Sum(payload, mh.SHA2_256, -1)
+	if err != nil {
+		panic(err)
+	}
+	return cid.NewCidV1(0x71, sum).String() // 0x71 = dag-cbor; multibase base32 (lower case, no padding)
+}
+
+type cidAlias struct{ name, id string }
+
+// cidAliases: every other spelling of the SAME digest: all multibases go-multibase knows, other codecs, CIDv0, case
+// variants, padding / whitespace / path decoration (whether or not go-cid parses them: a replica compares ids as strings,
+// so every one of them must be refused).
+func cidAliases(id string, r *vlib.Rand) []cidAlias {
+	c, err := cid.Decode(id)
+	if err != nil {
+		return nil
+	}
+	var out []cidAlias
+	add := func(name, s string) {
+		if s != id && s != "" {
+			out = append(out, cidAlias{name, s})
+		}
+	}
+	var encs []int
+	for e := range multibase.EncodingToStr {
+		encs = append(encs, int(e))
+	}
+	sort.Ints(encs)
+	for _, e := range encs {
+		if s, err := c.StringOfBase(multibase.Encoding(e)); err == nil {
+			add("multibase_"+multibase.EncodingToStr[multibase.Encoding(e)], s)
+		}
+	}
+	for _, codec := range []uint64{0x55, 0x70, 0x0129, 0x00, 0x72} { // raw, dag-pb, dag-json, identity, other
+		add(fmt.Sprintf("codec_0x%x", codec), cid.NewCidV1(codec, c.Hash()).String())
+		if s, err := cid.NewCidV1(codec, c.Hash()).StringOfBase(multibase.Base58BTC); err == nil {
+			add(fmt.Sprintf("codec_0x%x_base58btc", codec), s)
+		}
+	}
+	add("cidv0", cid.NewCidV0(c.Hash()).String())
+	add("cidv0_multibase_z", "z"+cid.NewCidV0(c.Hash()).String())
+	add("case_upper_body", id[:1]+strings.ToUpper(id[1:]))
+	add("case_upper_all", strings.ToUpper(id))
+	mixed := []byte(id)
+	for i := 1; i < len(mixed); i++ {
+		if r.Bool() {
+			mixed[i] = strings.ToUpper(string(mixed[i]))[0]
+		}
+	}
+	add("case_mixed", string(mixed))
+	add("space_after", id+" ")
+	add("space_before", " "+id)
+	add("newline_after", id+"\n")
+	add("crlf_inside", id[:10]+"\r\n"+id[10:])
+	add("tab_before", "\t"+id)
+	add("pad_1", id+"=")
+	add("pad_6", id+"======")
+	add("nul_after", id+"\x00")
+	add("path_ipfs", "/ipfs/"+id)
+	add("slash_after", id+"/")
+	return out
 }
 
 // term: cached for the unmutated history records.
@@ -142,7 +215,7 @@ func bogusCid(r *vlib.Rand) string {
 	return id
 }
 
-var commonMuts = []string{"flip_keep_id", "flip_payload_new_id", "flip_sig_new_id", "wrong_id", "resign_other", "prev_older",
+var commonMuts = []string{"cid_alias", "cid_alias", "flip_keep_id", "flip_payload_new_id", "flip_sig_new_id", "wrong_id", "resign_other", "prev_older",
 	"prev_bogus", "dup", "dup_root", "trunc_keep_id", "trunc_new_id", "swap_sig", "skip_ahead", "empty_payload", "flip_data_resigned_by_other"}
 
 var acceptorMuts = []string{"acc_drop", "acc_corrupt", "acc_other_key", "acc_wrong_signer", "acc_sig_of_other_record", "acc_identity_garbage"}
@@ -162,6 +235,18 @@ func (h *hist) mutate(kind string, i int, r *vlib.Rand) *RawRec {
 		author = h.recs[i].author
 	}
 	switch kind {
+	case "cid_alias":
+		// bytes and signatures untouched, the id is another spelling of the same digest
+		al := cidAliases(t.Id, r)
+		if len(al) == 0 {
+			return nil
+		}
+		a := al[r.Intn(len(al))]
+		h.w.Stat("cid_alias_variant_" + a.name)
+		if _, err := cid.Decode(a.id); err == nil {
+			h.w.Stat("cid_alias_parseable_by_go_cid")
+		}
+		return &RawRec{Payload: clone(t.Payload), Id: a.id}
 	case "flip_keep_id":
 		p := clone(t.Payload)
 		flip(p, r)
